@@ -152,9 +152,11 @@ def C09(tier, seed):
             stages.append(acc_stage(fl, 3, shards=8))
         stages.append(acc_stage("arith", 3, ty="f32", shards=8))
         stages.append(acc_stage("arith", 4, rich=0, R=2, shards=8, name="arith_f64_L4"))
-        stages.append(acc_stage("unpaired", 30, R=6, name="unpaired_sim", simulate="num=400", shards=8))
-        stages.append(acc_stage("arith", 40, R=8, name="arith_sim", simulate="num=400", shards=8))
-        stages.append(acc_stage("harm", 40, R=8, name="harm_sim", simulate="num=300", shards=8))
+        for sim in (acc_stage("unpaired", 30, R=6, name="unpaired_sim", simulate="num=400", shards=8),
+                    acc_stage("arith", 40, R=8, name="arith_sim", simulate="num=400", shards=8),
+                    acc_stage("harm", 40, R=8, name="harm_sim", simulate="num=300", shards=8)):
+            sim.max_cases = 3000            # 3000 programs of 30-40 calls each
+            stages.append(sim)
     # every pairwise merge schedule of 4 (5) chunks incl. empty and very unequal ones, and real rayon reductions
     for fl in (("arith", "harm", "prop") if tier == "quick" else ("arith", "geo", "harm", "prop")):
         t = acc_stage(fl, 0, R=4 if tier == "quick" else 5, shards=8, name=f"{fl}_merge_schedules",
@@ -188,6 +190,16 @@ def C09(tier, seed):
 
 
 HARNESS_SERDE = os.path.join(driver.HARNESS_DIR, "target-serde", "release", "verif-harness")
+
+
+def build_serde_harness(tier, seed, out):
+    """pre-hook: (re)build the serde-enabled harness against /repo's current working tree"""
+    p = subprocess.run(["cargo", "build", "--release", "--offline", "--features", "serde", "--target-dir", "target-serde"],
+                       cwd=driver.HARNESS_DIR, env=dict(os.environ, CARGO_NET_OFFLINE="true"),
+                       stdout=subprocess.PIPE, stderr=subprocess.STDOUT, text=True)
+    if p.returncode != 0:
+        raise driver.ToolError("serde harness build failed:\n" + p.stdout[-3000:])
+    driver.log("[build] serde harness ok")
 
 
 def run_builds(cases_path, trace_path):
@@ -247,6 +259,7 @@ def C20(tier, seed):
     for fl, ty, d in (("arith", "f64", 1), ("arith", "f64", 7), ("arith", "f32", 3), ("harm", "f64", 1), ("unpaired", "f64", 1), ("geo", "f64", 5)):
         fr = acc_stage(fl, 25, ty=ty, rich=0, R=2, req=[], shards=4, name=f"rt_{fl}_{ty}_frac{d}", simulate="num=%d" % (40 if tier == "quick" else 400))
         fr.env.update({"ACC_RT": 1, "ACC_FRAC": d})
+        fr.max_cases = 300 if tier == "quick" else 3000
         fr.harness_bin = HARNESS_SERDE
         fr.required = {"C20.roundtrip_eq", "C20.twin"}
         stages.append(fr)
@@ -254,6 +267,7 @@ def C20(tier, seed):
     for ty, n in (("f32", 150), ("f64", 60)):
         sim = acc_stage("arith", 30, ty=ty, rich=0, R=2, req=[], shards=8, name=f"rt_arith_{ty}_sim", simulate=f"num={n if tier == 'quick' else 10 * n}")
         sim.env.update({"ACC_RT": 1, "ACC_BIG": 1})
+        sim.max_cases = 1000 if tier == "quick" else 6000
         sim.harness_bin = HARNESS_SERDE
         sim.required = {"C20.roundtrip_eq", "C20.twin"}
         stages.append(sim)
@@ -642,12 +656,24 @@ def C08(tier, seed):
     streams = Stage("streams", ("Gen_Kahan", "Gen_Kahan.cfg"), ("Trace_Kahan", "Trace_Kahan.cfg"),
                     env={"PART": "streams"},
                     required=["C08.error_bound", "C08.long_stream.f32", "C08.long_stream.f64", "C08.merge_tree",
-                              "C08.statistics_inherit", "C08.statistics.f32", "C08.statistics.f64", "C08.statistics_fed_by.rfold1_assign", "C08.statistics_fed_by.tree", "C08.fold_of_absorbed_registers.f32", "C08.fold_of_absorbed_registers.f64", "C08.act.add_block", "C08.act.add_cycle",
+                              "C08.statistics_inherit", "C08.statistics.f32", "C08.statistics.f64", "C08.statistics_fed_by.rfold1_assign", "C08.statistics_fed_by.tree", "C08.statistics_fed_by.extend4", "C08.fold_of_absorbed_registers.f32", "C08.fold_of_absorbed_registers.f64", "C08.act.add_block", "C08.act.add_cycle",
                               "C08.long_lfold.f32", "C08.long_rfold.f32", "C08.long_lfold.f64", "C08.long_rfold.f64",
                               "C08.long_lfold_plus.f32", "C08.long_rfold_plus.f32", "C08.long_lfold_plus.f64", "C08.long_rfold_plus.f64",
                               "C08.negative_sum_stream", "C08.tiny_magnitude_stream.f32", "C08.tiny_magnitude_stream.f64"])
+    # registers that pass through a serialization round trip in the middle of a long accumulation (f32 data above 2^24: the
+    # compensation terms are non-zero) must go on accumulating as if nothing had happened
+    rts = []
+    for ty, n in (("f32", 150), ("f64", 60)):
+        sim = acc_stage("arith", 30, ty=ty, rich=0, R=2, req=[], shards=8, name=f"rt_arith_{ty}_sim", simulate=f"num={n if q else 10 * n}")
+        sim.env.update({"ACC_RT": 1, "ACC_BIG": 1})
+        sim.max_cases = 600 if q else 6000
+        sim.harness_bin = HARNESS_SERDE
+        sim.required = {"C20.roundtrip_eq", "C20.twin"}
+        sim.adopt = {"C20.roundtrip_eq", "C20.twin"}
+        rts.append(sim)
     return {
-        "stages": [bfs, streams],
+        "pre": [build_serde_harness],
+        "stages": [bfs, streams] + rts,
         "exhaustive": True,
         "rule": "model: every sequence of up to 5 (7) additions of an adversarial alphabet (values straddling 2^24, cancelling pairs, mixed magnitudes) "
                 "into two registers with merges at any point, in an exact binary32-over-integers model: |value - exact| <= 16 u sum|x| in every state. "
